@@ -517,7 +517,7 @@ func main() {
 		Build: func(tier string) (kit.Space, string) {
 			g := mk.NewGraph(tier)
 			// quick: depth <= 2 at every representative state. thorough: the same,
-			// plus depth <= 3 over a pruned atom set at the states of the layers
+			// plus depth <= 3 at the states of the layers
 			// that run to a fixpoint (histories of every length).
 			stateMenu := mk.C03Menu(2)
 			stateMatch := stateMenu
@@ -542,7 +542,7 @@ func main() {
 			memEvery, compactEvery, deepEvery := 5, 47, 1<<30
 			var deep []wk.RQ
 			if tier == "thorough" {
-				memEvery, compactEvery, deepEvery = 1, 11, 13
+				memEvery, compactEvery, deepEvery = 1, 7, 5
 				deep = wk.QueryMenu(staticAtomsDeep(), 3, mk.QueryTypes)
 			}
 			bound := fmt.Sprintf("part A: %d representative states/successors of [%s] x %d queries (depth <= 2 over %d atoms)", reps, g.Describe(), len(stateMenu), len(mk.C03Atoms()))
